@@ -3,6 +3,7 @@ package props
 import (
 	"bytes"
 	"fmt"
+	"net/http"
 	"net/textproto"
 	"runtime"
 	"strings"
@@ -166,6 +167,18 @@ func runC09(r *R) {
 		}
 		ammo["headers"] = hs
 	}
+	// one run in five: the documented ammo middleware header/date stamps every request (default header Date, or a named one)
+	mwName := ""
+	if w.Draw(5) == 0 {
+		mw := map[string]interface{}{"type": "header/date"}
+		mwName = "Date"
+		if w.Draw(3) != 0 {
+			mwName = "X-Sent-At"
+			mw["headerName"] = mwName
+		}
+		ammo["middlewares"] = []interface{}{mw}
+		r.Note("middleware:header/date")
+	}
 	gun := map[string]interface{}{"type": gunKind, "target": target, "ssl": ssl, "disable-keep-alives": !keepAlive}
 	if shared {
 		gun["shared-client"] = map[string]interface{}{"enabled": true, "client-number": 1 + w.Draw(2)}
@@ -258,7 +271,32 @@ func runC09(r *R) {
 		exps = append(exps, e)
 	}
 	used := make([]int, n)
+	epoch := time.Date(2000, 1, 1, 0, 0, 0, 0, time.UTC) // the simulated clock starts here
 	for _, s := range seen {
+		if mwName != "" {
+			// the middleware's stamp is the last value of its header: an HTTP date of the simulated clock, not later than
+			// the arrival; everything else about the request is judged as without the middleware
+			vals := s.Hdr[mwName]
+			if len(vals) == 0 {
+				r.Fail("middleware/header-date/missing", "%s %s arrived without the %s header the header/date middleware adds (received: %s)", s.Method, s.URI, mwName, hdrKey(s.Hdr, nil))
+			} else {
+				stamp := vals[len(vals)-1]
+				ts, err := time.Parse(http.TimeFormat, stamp)
+				if err != nil || ts.Before(epoch) || ts.After(epoch.Add(s.At)) {
+					r.Fail("middleware/header-date/value", "%s %s arrived at simulated %v with %s: %q, want an HTTP date between %v and the arrival", s.Method, s.URI, epoch.Add(s.At).Format(time.RFC3339Nano), mwName, stamp, epoch.Format(http.TimeFormat))
+				}
+				hc := map[string][]string{}
+				for k, v := range s.Hdr {
+					hc[k] = v
+				}
+				if len(vals) > 1 {
+					hc[mwName] = vals[:len(vals)-1]
+				} else {
+					delete(hc, mwName)
+				}
+				s.Hdr = hc
+			}
+		}
 		// match by the unique marker n=<i> in the URI
 		idx := -1
 		for i, e := range exps {
